@@ -1468,17 +1468,20 @@ _SHRINKERS = {"clear", "pop", "popitem", "__delitem__"}
 
 
 def _input_name_registries(ctx, rid):
-    """Module-level containers of circuit.py that are handed to get_unique_label as the registry of names already taken."""
+    """Module-level containers of circuit.py that create_input_node (its private helpers spliced in) hands to get_unique_label as
+    the registry of names already taken - i.e. the registry behind the names of input operators, not any other label registry."""
     m = ctx.repo.get_module(REL)
+    g = ctx.repo.get_func(REL, "create_input_node")
+    gi = inlined(ctx, g, keep=("get_unique_label",))
     out = set()
-    for f in ctx.repo.all_functions([REL]):
-        for c in walk_shallow(f.node):
-            if isinstance(c, ast.Call) and call_name(c) == "get_unique_label":
-                args = list(c.args) + [k.value for k in c.keywords]
-                for a in args[1:]:
-                    if isinstance(a, ast.Name) and a.id in m.assigns and not ctx.rd(f).is_local(a.id):
-                        out.add(a.id)
-    ctx.require(out, f"{rid}: no module-level name registry handed to get_unique_label in {REL} (anchor vanished)")
+    for c in walk_shallow(gi.node):
+        if isinstance(c, ast.Call) and call_name(c) == "get_unique_label":
+            args = list(c.args) + [k.value for k in c.keywords]
+            for a in args[1:]:
+                if isinstance(a, ast.Name) and a.id in m.assigns and a.id not in gi.params \
+                        and not any(isinstance(n, ast.Name) and n.id == a.id and isinstance(n.ctx, ast.Store) for n in walk_shallow(gi.node)):
+                    out.add(a.id)
+    ctx.require(out, f"{rid}: create_input_node hands no module-level name registry to get_unique_label (anchor vanished)")
     return out
 
 
